@@ -91,6 +91,20 @@ def make_replay(e, kt, cts, ut, xt=None, vt=None, extra_x=()):
             bad = concrete_check(e, k, c, u, pv)
             if bad:
                 break
+        if not bad:
+            # the model is one witness of a structural deviation; the property's accuracy clauses bite hardest where terms
+            # cancel or vanish: v next to 1 (x -> 0), the switch points, tiny and huge v, with k = 0 so nothing masks the error
+            forms = [(0.0, [1.0, 0.0, 0.0, 0.0], 0.0), (0.0, [0.0, 0.0, 0.0, 0.0], 1.0), (0.0, [1.0, -2.0, 0.5, 3.0], -1.5),
+                     (k, c, u)]
+            stress = [0.9999999999999999, 1.0000000000000002, 1 - 1e-12, 1 + 1e-12, 1 - 1e-9, 1 + 1e-7, 1 - 3e-5, 1 + 4e-5, 0.999, 1.001,
+                      math.exp(1.7099), math.exp(1.7101), math.exp(-1.7199), math.exp(-1.7201), 1e-8, 1e-3, 0.3, 3.0, 1e3, 1e8]
+            for (kk, cc, uu) in forms:
+                for pv in stress:
+                    bad = concrete_check(e, kk, cc, uu, pv)
+                    if bad:
+                        break
+                if bad:
+                    break
         if bad:
             return True, path, "; ".join(bad[:2])
         return False, path, "model does not violate the statement natively (k=%r c=%r u=%r v=%r)" % (k, c, u, v)
@@ -108,12 +122,10 @@ def thresholds(e):
 def series_identity(e):
     x = z3.Real("x")
     dom = RealDomain(False)
-    it = Interp(e.program, dom)
-    fn = e.program.find("exp_5_tail_taylor")
-    p = it.explore(fn, lambda d: [d.sym("x")])[0]
+    p, nums = api.run_fn(e, dom, "exp_5_tail_taylor", lambda d: [d.sym("x")], label="C10")
     e.prove("exp_5_tail_taylor:exact-identity",
             "exact arithmetic (literal quotients 1/120 ... 1/20! as exact rationals), all real x: the Estrin tree equals sum_{m<16} x^m/(m+5)!",
-            list(p.side), p.result.t == S16(x), dom_name="real", functions=FUNCS_T, witness_terms={"x": x}, role="series-value",
+            list(p.side), nums[0].t == S16(x), dom_name="real", functions=FUNCS_T, witness_terms={"x": x}, role="series-value",
             replay=make_replay(e, None, None, None, xt=x))
 
 
@@ -121,11 +133,9 @@ def series_rounding(e, lo, hi):
     """per-lane rounding factors of the 16-term Estrin (constants named), K = 72, and sum|c_m||x|^m <= 2 S16(x) on the branch interval."""
     x = z3.Real("x")
     dom = RealDomain(True, symbolic_const_div=True)
-    it = Interp(e.program, dom)
-    fn = e.program.find("exp_5_tail_taylor")
-    p = it.explore(fn, lambda d: [d.sym("x")])[0]
+    p, nums = api.run_fn(e, dom, "exp_5_tail_taylor", lambda d: [d.sym("x")], label="C10")
     consts = list(dom.named_consts)
-    R = p.result.t
+    R = nums[0].t
     if len(consts) != 16:
         e.not_encoded("exp_5_tail_taylor:rounding", "per-lane rounding", "expected 16 literal quotients, found %d" % len(consts), FUNCS_T)
         return
@@ -186,9 +196,8 @@ def series_truncation(e, lo, hi):
 def closed_form_identity(e):
     x = z3.Real("x")
     dom = RealDomain(False)
-    it = Interp(e.program, dom)
-    fn = e.program.find("exp_5_tail_anal")
-    p = it.explore(fn, lambda d: [d.sym("x")])[0]
+    p, nums = api.run_fn(e, dom, "exp_5_tail_anal", lambda d: [d.sym("x")], label="C10")
+    result_t = nums[0].t
     # exp_real(arg): arg is recip(recip(x)) -> a quotient variable equal to x under the side constraints
     apps = []
 
@@ -198,13 +207,13 @@ def closed_form_identity(e):
                 apps.append(t)
             for ch in t.children():
                 walk(ch)
-    walk(p.result.t)
+    walk(result_t)
     if len(apps) < 1:
         e.not_encoded("exp_5_tail_anal:exact-identity", "closed form identity", "no exp application found", FUNCS_A)
         return
     E = z3.Real("E")
     arg = apps[0].arg(0)
-    res = z3.substitute(p.result.t, (apps[0], E))
+    res = z3.substitute(result_t, (apps[0], E))
     x5 = x * x * x * x * x
     e.prove("exp_5_tail_anal:exact-identity",
             "exact arithmetic, all real x != 0: exp is applied to x itself (recip of recip) and the result times x^5 equals E - sum_{j<5} x^j/j!",
